@@ -4,6 +4,10 @@
      ring-buffer model answers, in the harness' output format (as ocaml/C07_driver.ml does; here the rings are
      opened with the OVERWRITE flag):   O <S> <flags>   W <hex|->   A <rlen> <hex|->   R <n>   P   X   Q   D
 
+   split: reads the ring commands of harness/h_rbow.c (lower case: o w a f c r p x d) - alloc / copy / commit as separate
+     calls (coq/RbOwSplitModel.v: xstep) and reads / peeks with ms_timeout <> 0 (coq/RbOwWaitModel.v: read_wait /
+     peek_wait, the notifier answering what a single-threaded run sees) - and prints the harness' output lines.
+
    bb: reads the LOG of the blackbox harness (harness/h_rbow.c) - the echoed concrete calls, the serializer's answers
      (oracle) and the time stamps - and prints what the extracted blackbox model (coq/BbModel.v) predicts for every
      observable line: the reservation, the limit of each serializer call, the committed chunk, the dump read back. *)
@@ -176,7 +180,85 @@ let bb_mode () =
   done;
   flush_out ()
 
+(* ------------------------------------------------------------------ split mode *)
+let split_mode () =
+  let st : xst option ref = ref None in
+  let alloc_res = ref Z0 in           (* result printed for the last `a' *)
+  let alloc_ok = ref false in
+  let query () =
+    match !st with
+    | None -> ()
+    | Some s ->
+      (match snd (step s.xb OQuery) with
+       | OQ (f, u, c) -> pr (Printf.sprintf "q %s %s %s" (string_of_z f) (string_of_z u) (string_of_z c))
+       | _ -> ()) in
+  let show (r : out) =
+    match r with
+    | ORet (v, bytes) -> pr (Printf.sprintf "r %s %s" (string_of_z v) (hex_of_bytes bytes))
+    | OD words ->
+      let b = Buffer.create 8192 in
+      List.iter (fun w -> Buffer.add_string b (Printf.sprintf "%x." (int_of_z w))) words;
+      pr ("d " ^ Buffer.contents b)
+    | OFuel -> pr "r OUT-OF-FUEL"
+    | OQ _ -> () in
+  let xdo (o : xop) (print : bool) =
+    match !st with
+    | None -> pr "r noring"; None
+    | Some s ->
+      let (s', r) = xstep s o in
+      st := Some s';
+      if print then (show r; query ());
+      Some r in
+  (try
+     while true do
+       let line = input_line stdin in
+       (match split_ws line with
+        | "#" :: _ -> st := None; alloc_ok := false; pr line
+        | ["o"; s; fl] ->
+          let has c = String.contains fl c in
+          st := Some { xb = rb_open (z_of_string s) (has 'n') (has 'o'); xpend = None };
+          alloc_ok := false;
+          pr "o 1"; query ()
+        | ["w"; h] -> ignore (xdo (XOp (OWrite (bytes_of_hex h))) true)
+        | ["a"; rl] ->
+          (match xdo (XAlloc (z_of_string rl)) false with
+           | Some (ORet (v, _)) ->
+             alloc_res := v; alloc_ok := (int_of_z v = 0);
+             if !alloc_ok then pr "ra 0" else begin pr (Printf.sprintf "r %s -" (string_of_z v)); query () end
+           | Some OFuel -> pr "ra OUT-OF-FUEL"
+           | _ -> ())
+        | ["f"; h] -> if !alloc_ok then ignore (xdo (XFill (bytes_of_hex h)) false)
+        | ["c"; len] ->
+          if !alloc_ok then ignore (xdo (XCommit (z_of_string len)) true)
+          else if !st = None then pr "r noring";
+          alloc_ok := false
+        | ["r"; n; ms] ->
+          if ms = "0" then ignore (xdo (XOp (ORead (z_of_string n))) true)
+          else (match !st with
+              | None -> pr "r noring"
+              | Some s ->
+                let ((b', r), bytes) = read_wait s.xb (z_of_string n) in
+                st := Some { xb = b'; xpend = s.xpend };
+                show (ORet (r, bytes)); query ())
+        | ["p"; ms] ->
+          if ms = "0" then ignore (xdo (XOp OPeek) true)
+          else (match !st with
+              | None -> pr "r noring"
+              | Some s ->
+                let ((b', r), bytes) = peek_wait s.xb in
+                st := Some { xb = b'; xpend = s.xpend };
+                show (ORet (r, bytes)); query ())
+        | ["x"] -> ignore (xdo (XOp OReclaim) true)
+        | ["d"] -> ignore (xdo (XOp ODump) true)
+        | [] -> ()
+        | _ -> failwith ("bad script line: " ^ line));
+       if Buffer.length out > 60000 then flush_out ()
+     done
+   with End_of_file -> ());
+  flush_out ()
+
 let () =
   match Sys.getenv_opt "C11_MODE" with
   | Some "bb" -> bb_mode ()
+  | Some "split" -> split_mode ()
   | _ -> ring_mode ()
